@@ -322,6 +322,10 @@ fn run_tls_full(server_tls: Option<Arc<rustls::ServerConfig>>, client_cert: bool
         Ok(c) => c.into_inner(),
         Err(_) => panic!("VERIF harness bug: transport still referenced"),
     };
+    // the observable outcome: result, callbacks, and what the client decrypted (the ciphertext
+    // itself differs from run to run)
+    let log: Vec<Cb> = log;
+    record_connection(&res, &log, &st.decrypted);
     TlsOutcome { res, log, st }
 }
 
